@@ -128,7 +128,19 @@ def canaries(start=0):
         ml[0] = 'print'
         return ml.mediaText
 
-    thunks = [quiet(sheet),
+    def single_rules():
+        # the text of single rules under a preference of the global serializer that is switched on for these reads only
+        prefs = cp.ser.prefs
+        old = prefs.indentSpecificities
+        prefs.indentSpecificities = True
+        try:
+            sh = cp.parseString('a {color: red} a.x {color: blue} @media print {a {top: 0} a.y {top: 1px}}')
+            return [sh.cssRules[1].cssText, sh.cssRules[0].cssText, sh.cssRules[1].cssText, sh.cssRules[2].cssRules[1].cssText,
+                    sh.cssText.decode(), sh.cssRules[1].cssText]
+        finally:
+            prefs.indentSpecificities = old
+
+    thunks = [quiet(single_rules), quiet(sheet),
               quiet(lambda: cp.CSSParser().parseStyle('top: 0; color: rgb(1,2,3); margin: 0 auto !important').cssText),
               quiet(lambda: cp.stylesheets.MediaList('print, screen and (min-width: 1px)').mediaText),
               quiet(lambda: cp.css.Selector('a > b:not(.c)[d="e"]::after').selectorText),
@@ -170,7 +182,7 @@ def api_call(rnd, pool=()):
     cp = _cp()
     k = rnd.choice(['parseString', 'parseString', 'parseStyle', 'parser-reuse', 'old-parser', 'old-parser', 'medialist', 'mediaquery', 'selector',
                     'selectorlist', 'style-text', 'property', 'sheet-text', 'rule-text', 'append-medium', 'append-selector',
-                    'serialize-prefs', 'csscombine', 'value', 'leftover', 'leftover', 'import-raise', 'set-raise', 'set-serializer', 'import-media', 'parse-media', 'global-prefs', 'global-prefs'])
+                    'serialize-prefs', 'csscombine', 'value', 'leftover', 'leftover', 'reentrant', 'import-raise', 'set-raise', 'set-serializer', 'import-media', 'parse-media', 'global-prefs', 'global-prefs'])
     t = rnd.choice(list(TEXTS))
     s = rnd.choice(SETTER_TEXTS) if rnd.random() < 0.5 else gen_text(rnd)
     raising = rnd.random() < 0.5
@@ -246,7 +258,13 @@ def api_call(rnd, pool=()):
                 for n in names:
                     setattr(prefs, n, not old[n])
                 for text in rnd.sample(['a {left:0} a.b {color: red}', GOOD_SHEET, 'x, y.z { top: 0 } x { left: 0 }'], 3):
-                    cp.CSSParser(fetcher=fetcher_ok).parseString(text).cssText
+                    sh = cp.CSSParser(fetcher=fetcher_ok).parseString(text)
+                    if rnd.random() < 0.5:
+                        sh.cssText
+                    # single rules and blocks, in any order and more than once
+                    for r in rnd.choices(list(sh.cssRules), k=4):
+                        r.cssText
+                        getattr(getattr(r, 'style', None), 'cssText', None)
             finally:
                 for n in names:
                     setattr(prefs, n, old[n])
@@ -269,6 +287,18 @@ def api_call(rnd, pool=()):
                 ("CSSVariablesDeclaration('a: 1px; b: 2px;')", lambda: cp.css.CSSVariablesDeclaration('a: 1px; b: 2px;')),
                 ("parseString('@page { @top-left { } }')", lambda: cp.parseString('@page { @top-left { } }')),
                 ("MarginRule.cssText = '@top-left { } }'", lambda: setattr(cp.css.MarginRule(), 'cssText', '@top-left { left: 0 } }'))][j]
+    if k == 'reentrant':
+        # the fetcher parses with the very parser it serves (e.g. to look into the sheet it hands over)
+        def f():
+            p = cp.CSSParser(raiseExceptions=raising)
+
+            def fetch(url):
+                p.parseString(TEXTS[t] if not isinstance(TEXTS[t], bytes) else 'a{}')
+                p.parseStyle(s)
+                return None, 'i { top: 1px }'
+            p.setFetcher(fetch)
+            p.parseString('@import "x.css"; a { left: 0 }', href='http://h/s.css')
+        return ('parser whose fetcher parses %s and %r with it (raise=%s)' % (t, s, raising), f)
     if k == 'import-raise':
         return ('parse with raising fetcher', lambda: cp.CSSParser(fetcher=fetcher_raise).parseString('@import "x.css";'))
     if k == 'set-raise':
@@ -353,8 +383,17 @@ def run(tier, seed):
     fails = [x for r in res for x in r]
     for s, why in fails[:6]:
         findings.add('sequence', 'seed %d' % s, why)
+    # re-entrant parses: Model/SaveStack.lean against the running CSSParser
+    from . import c06s
+    resS, distS = c06s.run(tier, seed)
+    if resS['n_mismatch']:
+        c, line, e, g = resS['mismatches'][0]
+        broken.append('correspondence op `savestack` diverges on %d histories; first %s: impl=%s model=%s' % (
+            resS['n_mismatch'], line[:200], e[:120], g[:120]))
+    for case, why in resS['oracle_fail'][:4]:
+        findings.add('reentrant', c06s.line_of(case)[:200], why)
     coverage = {
-        'evaluations': n * length,
+        'evaluations': n * length + resS['n'],
         'distinct_nontrivial': n,
         'rule': 'sequences of public-API calls (parseString / parseStyle with raising and non-raising parsers on 14 texts incl. '
                 'undecodable bytes, module-level parse helpers, MediaList / MediaQuery / Selector / SelectorList / '
@@ -363,14 +402,17 @@ def run(tier, seed):
                 'incl. an unknown target encoding, a raising fetcher, and the caller changing raiseExceptions / the '
                 'serializer); after EVERY call log.raiseExceptions, the global serializer and its preferences, the '
                 'pushed-back token list and the tokenizer productions are compared with what the caller last set; after '
-                'the sequence 20 canary operations are compared with a fresh process',
+                'the sequence 22 canary operations (run in rotated order) are compared by number with a fresh process.  Re-entrant '
+                'parses: forests of calls on 1-3 long-lived parser objects whose fetchers make the child calls (same or other parser, '
+                'returning or raising), flag observed inside and after every call, against the model `savestack`',
         'traces_validated_against_impl': n,
         'exhaustive': False,
         'distribution': {'sequences': n, 'length': length},
         'classification': {'mutated_cells': ['%s %s <- %s' % (k[0], k[1], ', '.join(sorted(v))[:120]) for k, v in sorted(cells.items())]},
         'samples': ['seed %d' % seeds[0], 'seed %d' % seeds[-1]],
-        'correspondence_mismatches': 0,
-        'oracle_failures': len(fails),
+        'correspondence_mismatches': resS['n_mismatch'],
+        'oracle_failures': len(fails) + resS['n_oracle_fail'],
+        'reentrant_histories': distS,
     }
     assumptions = ['the scanner of harness/gen_globals.py finds process-wide state by syntactic patterns (module-level names, '
                    'css_parser.<object> attribute chains, class-level containers, mutable defaults)']
